@@ -1375,6 +1375,187 @@ def _writer(ast, name, fsm, pre, fpos, fws, fsrc, fstate, fafter, conv):
     return "\n".join(txt)
 
 
+# ------------------------------------------------------------------------------------ T11
+# `update_command` and `search_command`: locals, calls of the lane accessors, conditions over
+# fields, locals and the entry under the cursor, else-if chains, a pre-increment inside a
+# condition, a conditional expression on the right of an assignment, early returns.  Statements
+# are translated in continuation-passing style so that an early return simply drops the rest.
+
+T11_FUNCS = ["update_command", "search_command"]
+
+
+class _Env:
+    def __init__(self):
+        self.n = 0
+        self.pre = []          # let-bindings hoisted out of an expression (calls with side conditions, ++)
+
+    def fresh(self):
+        self.n += 1
+        return "t%d" % self.n
+
+
+def _x(n, env):
+    """expression -> (lean term, kind) with kind in nat / bool"""
+    e = strip(n)
+    k = e.get("kind")
+    if k == "IntegerLiteral" or k == "CharacterLiteral":
+        return str(int(e["value"])), "nat"
+    if k == "DeclRefExpr":
+        nm = e["referencedDecl"]["name"]
+        if nm in ("cmd_name_len", "cmd_state"):
+            return nm, "nat"
+        raise Unrecognised("T11: reference to %s" % nm)
+    if k == "MemberExpr":
+        path = _member_path(e)
+        if path == "commands_num":
+            return "D.commandsNum", "nat"
+        if path in FIELD and FIELD[path][1] in ("nat", "bool"):
+            return "s." + FIELD[path][0], FIELD[path][1]
+        if path == "current_char":
+            return "s.currentChar", "nat"
+        b = strip(e["inner"][0])
+        if b.get("kind") == "DeclRefExpr" and b["referencedDecl"]["name"] == "cmd" and e["name"] == "implicit_write":
+            return "cmd.implicitWrite", "bool"
+        raise Unrecognised("T11: member %s" % (path or e.get("name")))
+    if k == "ArraySubscriptExpr":
+        base = strip(e["inner"][0])
+        b = strip(base["inner"][0]) if base.get("kind") == "MemberExpr" else {}
+        if base.get("name") == "name" and b.get("kind") == "DeclRefExpr" and b["referencedDecl"]["name"] == "cmd":
+            i, _ = _x(e["inner"][1], env)
+            return "cmd.name.getD (%s) 0" % i, "nat"
+        raise Unrecognised("T11: subscript")
+    if k == "CallExpr":
+        fn = strip(e["inner"][0]).get("referencedDecl", {}).get("name")
+        if fn == "to_upper":
+            a, _ = _x(e["inner"][1], env)
+            return "toUpper (%s)" % a, "nat"
+        if fn == "strlen":
+            a = strip(e["inner"][1])
+            b = strip(a["inner"][0]) if a.get("kind") == "MemberExpr" else {}
+            if a.get("name") == "name" and b.get("kind") == "DeclRefExpr" and b["referencedDecl"]["name"] == "cmd":
+                return "cmd.name.length", "nat"
+        if fn == "get_cmd_state" and _member_path(e["inner"][2]) == "index":
+            t = env.fresh()
+            env.pre.append("let (s, %s) := getCmdState D s s.index" % t)
+            return t, "nat"
+        raise Unrecognised("T11: call of %s" % fn)
+    if k == "UnaryOperator" and e.get("opcode") == "++" and not e.get("isPostfix") and _member_path(e["inner"][0]) == "index":
+        env.pre.append("let s : St := { s with index := s.index + 1 }")
+        return "s.index", "nat"
+    if k == "BinaryOperator":
+        op = e["opcode"]
+        if op in ("+", "-"):
+            a, _ = _x(e["inner"][0], env)
+            b, _ = _x(e["inner"][1], env)
+            return "%s %s %s" % (a, op, b), "nat"
+        if op in ("==", "!=") and _member_path(e["inner"][0]) == "cmd":
+            if _rhs(e["inner"][1], "ptr", [], {}) != "none":
+                raise Unrecognised("T11: cmd compared with something other than NULL")
+            return ("s.cmd.isNone" if op == "==" else "s.cmd.isSome"), "bool"
+        if op in ("==", "!=", "<", ">", "<=", ">="):
+            a, ka = _x(e["inner"][0], env)
+            if ka == "bool":
+                v = _rhs(e["inner"][1], "bool", [], {})
+                pos = (op == "==") == (v == "true")
+                return (a if pos else "!" + a), "bool"
+            b, _ = _x(e["inner"][1], env)
+            return "decide (%s %s %s)" % (a, {"==": "=", "!=": "≠", ">=": "≥", "<=": "≤"}.get(op, op), b), "bool"
+        if op == "&&":
+            a, _ = _x(e["inner"][0], env)
+            b, _ = _x(e["inner"][1], env)
+            return "(%s && %s)" % (a, b), "bool"
+    raise Unrecognised("T11: unrecognised expression (%s)" % k)
+
+
+def _has_return(sts):
+    return any(x.get("kind") == "ReturnStmt" for st in sts for x in _walk(st))
+
+
+def _cps(sts, k, ind):
+    """statements followed by the continuation k (a Lean term of type St over s)"""
+    sts = [x for x in sts if not is_noise(x)]
+    if not sts:
+        return k
+    st, rest = sts[0], sts[1:]
+    kind = st.get("kind")
+    e = strip(st)
+    if kind == "ReturnStmt":
+        _check_ret(st)
+        return "s"
+    if kind == "DeclStmt":
+        out = []
+        for d in st.get("inner", []):
+            nm = d.get("name")
+            init = [c for c in d.get("inner", []) if c.get("kind") not in (None,)]
+            if not init:
+                continue                      # declared, assigned later
+            i = strip(init[-1])
+            fn = strip(i["inner"][0]).get("referencedDecl", {}).get("name") if i.get("kind") == "CallExpr" else None
+            if nm == "cmd" and fn == "get_command_by_index" and _member_path(i["inner"][2]) == "index":
+                out.append("let cmd := (cmdByIndex D.groups s.index).getD default")
+            elif nm == "cmd_state" and fn == "get_cmd_state" and _member_path(i["inner"][2]) == "index":
+                out.append("let (s, cmd_state) := getCmdState D s s.index")
+            else:
+                raise Unrecognised("T11: declaration of %s" % nm)
+        tail = _cps(rest, k, ind)
+        return "(" + ("\n" + ind).join(out + [tail]) + ")"
+    if kind == "IfStmt":
+        env = _Env()
+        c, _ = _x(st["inner"][0], env)
+        th = _block(st["inner"][1])
+        el = _block(st["inner"][2]) if len(st["inner"]) > 2 else []
+        if _has_return(th) or _has_return(el):
+            body = "if %s then %s\n%selse %s" % (c, _cps(th + rest, k, ind + "  "), ind, _cps(el + rest, k, ind + "  "))
+        else:
+            body = "let s : St := (if %s then %s\n%s  else %s)\n%s%s" % (c, _cps(th, "s", ind + "  "), ind, _cps(el, "s", ind + "  "), ind,
+                                                                     _cps(rest, k, ind))
+        return "(" + ("\n" + ind).join(env.pre + [body]) + ")"
+    if e.get("kind") == "BinaryOperator" and e.get("opcode") == "=":
+        lhs, rhs = strip(e["inner"][0]), strip(e["inner"][1])
+        if lhs.get("kind") == "DeclRefExpr" and lhs["referencedDecl"]["name"] == "cmd_name_len":
+            env = _Env()
+            v, _ = _x(rhs, env)
+            return "(let cmd_name_len := %s\n%s%s)" % (v, ind, _cps(rest, k, ind))
+        path = _member_path(lhs)
+        if path == "cmd" and rhs.get("kind") == "CallExpr" and \
+                strip(rhs["inner"][0]).get("referencedDecl", {}).get("name") == "get_command_by_index" and _member_path(rhs["inner"][2]) == "index":
+            return "(let s : St := { s with cmd := some s.index }\n%s%s)" % (ind, _cps(rest, k, ind))
+        if path == "state" and rhs.get("kind") == "ConditionalOperator":
+            env = _Env()
+            c, _ = _x(rhs["inner"][0], env)
+            a, b = _rhs(rhs["inner"][1], "cstate", [], {}), _rhs(rhs["inner"][2], "cstate", [], {})
+            return "(let s : St := { s with state := if %s then %s else %s }\n%s%s)" % (c, a, b, ind, _cps(rest, k, ind))
+        if path in FIELD:
+            f, kd = FIELD[path]
+            return "(let s : St := { s with %s := %s }\n%s%s)" % (f, _rhs(rhs, kd, [], {}), ind, _cps(rest, k, ind))
+        raise Unrecognised("T11: assignment")
+    if e.get("kind") == "UnaryOperator" and e.get("opcode") == "++":
+        path = _member_path(e["inner"][0])
+        if path in FIELD and FIELD[path][1] == "nat":
+            f = FIELD[path][0]
+            return "(let s : St := { s with %s := s.%s + 1 }\n%s%s)" % (f, f, ind, _cps(rest, k, ind))
+    if e.get("kind") == "CallExpr":
+        fn = strip(e["inner"][0]).get("referencedDecl", {}).get("name")
+        if fn == "set_cmd_state" and _member_path(e["inner"][2]) == "index":
+            v = strip(e["inner"][3])
+            if v.get("kind") != "IntegerLiteral":
+                raise Unrecognised("T11: set_cmd_state with a non-constant state")
+            return "(let s : St := setCmdState D s s.index %s\n%s%s)" % (v["value"], ind, _cps(rest, k, ind))
+        if fn in STEP_CALL and "{f}" not in STEP_CALL[fn]:
+            return "(let s : St := %s\n%s%s)" % (STEP_CALL[fn], ind, _cps(rest, k, ind))
+    raise Unrecognised("T11: unrecognised statement (%s)" % kind)
+
+
+def t11(ast):
+    defs = []
+    for name in T11_FUNCS:
+        _, body = find_fn(ast, name)
+        sts = [x for x in body.get("inner", []) if not is_noise(x)]
+        defs.append("/-- `%s` of src/cat.c -/\ndef %s (D : Desc) (s : St) : St × Int :=\n  (%s, Gen.CAT_STATUS_BUSY)"
+                    % (name, name, _cps(sts, "s", "    ")))
+    return defs
+
+
 def t9(ast):
     defs = []
     for name in STEPS:
@@ -1387,7 +1568,8 @@ def t9(ast):
                     % (name, name, _step_seq(sts, "    ")))
     for w in WRITERS:
         defs.append(_writer(ast, *w))
-    hdr = ("/-\n  GENERATED by tools/translate.py from small step functions of src/cat.c (T9, T10). Do not edit.\n"
+    defs += t11(ast)
+    hdr = ("/-\n  GENERATED by tools/translate.py from small step functions of src/cat.c (T9, T10, T11). Do not edit.\n"
            "  `Proofs/Steps.lean` proves the model's functions equal to these.\n-/\n"
            "import CatVerif.Model.Fsm\nnamespace Cat.Gen\nopen Cat St\nset_option linter.unusedVariables false\n\n")
     return hdr + "\n\n".join(defs) + "\n\nend Cat.Gen\n"
